@@ -232,6 +232,21 @@ def coqc_print_assumptions(props_file, thms):
     return blocks
 
 
+def coqchk(props_file, timeout=3000):
+    """ independent checker on the compiled props module; returns the axioms section it prints """
+    mod = 'Sup.' + props_file[:-2].replace('/', '.')
+    cmd = ['timeout', str(timeout), 'coqchk', '-silent', '-o', '-Q', COQ, 'Sup', mod]
+    p = subprocess.run(cmd, stdout=subprocess.PIPE, stderr=subprocess.STDOUT, text=True, cwd=COQ)
+    if p.returncode != 0:
+        raise BuildError('coqchk ' + mod, p.stdout)
+    m = re.search(r'\* Axioms:(.*?)\n\s*\n\* Constants/Inductives relying on type-in-type', p.stdout, re.S)
+    axioms = ' '.join(m.group(1).split()) if m else 'unparsed'
+    for key in ('type-in-type: <none>', 'unsafe (co)fixpoints: <none>', 'positivity is assumed: <none>'):
+        if key not in ' '.join(p.stdout.split()):
+            raise BuildError('coqchk reports unsafe features for ' + mod, p.stdout)
+    return axioms
+
+
 def theorems_of(props_file):
     with open(props_file) as f:
         txt = strip_coq_comments(f.read())
